@@ -1,0 +1,11 @@
+//go:build verif
+
+package macat
+
+import "io"
+
+// VerifSetStdout redirects the application's standard output.
+// Verification hook; only built with the "verif" tag.  Call after Initialize.
+func (a *App) VerifSetStdout(w io.Writer) {
+	a.stdOut = w
+}
